@@ -277,8 +277,19 @@ func (c18) Exec(sc *Scenario, st *Stats) *Violation {
 			if sc.cfg("sweep-block") != 0 {
 				n = 1 + x // sweep: the offset itself; beyond the task's last yield nothing is preempted
 			}
+			if sc.cfg("x-is-percent") == 1 {
+				n = 1 + seqYields[a]*(x%100)/100
+			}
 			ran[a] += n
-			sched = append(sched, -(a + 64*n), -(b + 64*(1<<40)))
+			sched = append(sched, -(a + 64*n))
+			if b != a {
+				sched = append(sched, -(b + 64*(1<<40))) // b == a: nobody runs in the gap, a just stays parked
+			} else if len(sc.Tasks) > 1 && i+3 >= len(sc.Sched) {
+				// all stops placed: the remaining tasks (highest id first) run to completion before the parked ones resume
+				for t := len(sc.Tasks) - 1; t >= 0; t-- {
+					sched = append(sched, -(t + 64*(1<<40)))
+				}
+			}
 			st.probe("preemption-bounded-schedule")
 		}
 		if sc.cfg("sweep-block") != 0 {
